@@ -151,9 +151,11 @@ pub fn check_bytes(b: &[u8], obs: &mut Obs) -> CheckResult {
                         }
                     }
                 }
-                // a malformed end word (marker bit set) admits wrapped expansions; only the bound applies
-                if !ok && np.well_formed {
-                    return viol("decode-nak", format!("parse_srt_nak entry {v} not covered by the loss list of {}", hex(b)));
+                // a malformed end word (marker bit set) admits wrapped expansions; only the bound applies.
+                // A list that merely ends after a range marker is truncated: what is completely present still
+                // bounds the output (a marker word is never a lost sequence number by itself).
+                if !ok && (np.well_formed || !np.bad_end) {
+                    return viol("decode-nak", format!("parse_srt_nak entry {v} ({v:#x}) is not covered by the loss list of {}", hex(b)));
                 }
                 if !ok {
                     break;
